@@ -100,7 +100,7 @@ fn model_lines(c: &Cfg, recs: &[DrawRecord], case: u64, cases: &mut Cases) {
 pub fn main(tier: &str, seed: u64, outdir: &str) {
     let mut cases = Cases::new();
     let mut rep = Report::new("C15");
-    let n = if tier == "thorough" { 400 } else { 70 };
+    let n = if tier == "thorough" { 1600 } else { 70 };
     for case in 0..n {
         let c = gen_case(seed, case, tier);
         let (res, checked, recs) = run_case(&c);
